@@ -227,6 +227,8 @@ func (r *runner) exec(ln *lane, cs Case, bound time.Duration) (*finding, map[str
 		return r.e.runOper(cs.Oper, bound)
 	case "conc":
 		return r.e.runConc(cs.Conc, bound)
+	case "stall":
+		return ln.runStall(cs.Stall, bound)
 	}
 	return fnd("infra:unknown-case-kind", cs.Kind), nil
 }
